@@ -12,8 +12,9 @@ matching semantics *as a whole* are declined.  Decided (shape of the code and of
          '' before the lookups; the operator is the quantifier of the segment group, and its (min, max)
          from the regex AST agrees with the flags: optional <=> min == 0, multi <=> max > 1;
   R05.c  rejection discipline: five guarded ``raise InvalidPattern`` (no leading slash, '//', duplicate
-         binding, unknown type via KeyError, unknown operator via KeyError); Route.__init__ compiles the
-         pattern on every normal path before storing it;
+         binding, unknown type and unknown operator via KeyError handler or membership test); every table
+         lookup can only fail as InvalidPattern; Route.__init__ compiles the pattern on every normal path
+         before storing it;
   R05.d  anchoring and no-raise matching: the compiled expression is '^' ... '$'; separator '/+' (or '/'
          in strict mode) and trailing '/*' outside strict mode; in match_path every converter call is under
          a handler catching ValueError and TypeError that returns None; a failed regex match returns None;
@@ -23,20 +24,536 @@ matching semantics *as a whole* are declined.  Decided (shape of the code and of
          language-equal (NFA product) to (SEP TYPE)QUANT built independently from the documented meaning.
 Declined: greedy/backtracking interaction between adjacent bindings, slash tolerance over all paths,
 conversion values.
+
+How the code is read (so that behaviour-preserving rewrites stay silent):
+  * module-level tables are *folded* (loader.Repo.fold: concatenation of named pieces, comprehensions over
+    literal tables, ``X += [...]``), never required to be literals; callables in DEFAULT_CONVS fold to symbols;
+  * the expression handed to re.compile is obtained by a small path-sensitive symbolic evaluation of
+    _compile_path_pattern under each slash-mode assumption (strict / not strict): '+', '+=', '%s' templates,
+    str.format, f-strings, named temporaries (``is_strict = mode == S_STRICT``) and any nesting of the mode
+    tests give the same symbolic string  '^' JOIN(sep, segments) tail '$';
+  * variables of _compile_path_pattern are identified by role (what is passed to _SEG_TMPL.format, what
+    indexes the tables, what is returned), never by name; group sources are followed through
+    ``m.groupdict()['x']`` / ``m.group('x')`` / ``m['x']``;
+  * converters: conditions are compared as sets of facts (``optional and not value`` == ``not value and
+    optional`` == nested ifs), single-assignment temporaries are inlined, the list of conversions may be a
+    comprehension, ``list(map(...))`` or an explicit append loop.
 """
 import ast
+import copy
 import re
+import string
 
 from ..core import AnalysisError, norm, short
 from .. import regexq
+from ..loader import Sym, Unfoldable
+from ..astutil import argn, names_loaded, names_stored, assigned_value
 from .common import (cfg_of, fkey, conds, has_cond, cond_texts, stmts_of, walk_body, call_tail, call_name, returns_of,
-                     raises_of, raise_type, stmt_of, kwarg, protected_by)
+                     raises_of, raise_type, stmt_of, kwarg, protected_by, implies_absent, handler_reraises_always)
 from ..cfg import enclosing_tries
 
 ROUTE = 'clastic.route'
 CANON = {'int': r'-?[0-9]+', 'float': r'-?[0-9]+(\.[0-9]+)?'}
 DOC_QUANT = {'': '', '?': '?', '*': '*', '+': '+'}
+PATTERN_NAMES = ('_INT_PATTERN', '_FLOAT_PATTERN', '_STR_PATTERN')
+TYPE_TABLES = ('TYPE_CONV_MAP', 'TYPE_PATT_MAP')
+OP_TABLES = ('_OP_ARITY_MAP', '_OP_OPTIONALITY_MAP')
 
+
+# ---- generic helpers ---------------------------------------------------------------------------
+
+def _guarded(rep, fn, *args):
+    """rep.guard, and additionally: an unexpected Python exception inside a rule group is an analysis gap,
+    never a crash of the checker."""
+    def group():
+        try:
+            return fn(*args)
+        except AnalysisError:
+            raise
+        except Exception as e:   # pragma: no cover - defensive
+            raise AnalysisError('internal error while analysing (%s: %s)' % (type(e).__name__, e))
+    group.__name__ = fn.__name__
+    return rep.guard(group)
+
+
+def _stores(fnode, name):
+    """Number of binding occurrences of ``name`` in the body of a function (nested function bodies excluded)."""
+    n = 0
+    for x in walk_body(fnode):
+        if isinstance(x, ast.Name) and x.id == name and isinstance(x.ctx, (ast.Store, ast.Del)):
+            n += 1
+        elif isinstance(x, (ast.FunctionDef, ast.AsyncFunctionDef, ast.ClassDef)) and x.name == name:
+            n += 1
+        elif isinstance(x, ast.ExceptHandler) and x.name == name:
+            n += 1
+        elif isinstance(x, (ast.Import, ast.ImportFrom)):
+            n += sum(1 for a in x.names if (a.asname or a.name.split('.')[0]) == name)
+        elif isinstance(x, (ast.Global, ast.Nonlocal)) and name in x.names:
+            n += 2   # bound somewhere else as well: never "single assignment"
+    return n
+
+
+def _all_params(fi):
+    a = fi.node.args
+    out = set(fi.params())
+    if a.vararg:
+        out.add(a.vararg.arg)
+    if a.kwarg:
+        out.add(a.kwarg.arg)
+    return out
+
+
+def _defs(fi, name, _depth=0):
+    """Value expressions bound to local ``name``: [(stmt, value expr or None)]; element-wise for
+    ``a, b = x, y``; None when the value cannot be told (loop target, unpacking of a call, ``+=`` ...)."""
+    out = []
+    for st, val, idx in assigned_value(fi.node, name):
+        if idx is None and not isinstance(val, ast.AugAssign):
+            out.append((st, val))
+        elif isinstance(idx, int) and isinstance(val, (ast.Tuple, ast.List)) and isinstance(st, ast.Assign):
+            tgt = [t for t in st.targets if isinstance(t, (ast.Tuple, ast.List)) and len(t.elts) > idx and
+                   isinstance(t.elts[idx], ast.Name) and t.elts[idx].id == name]
+            if tgt and len(tgt[0].elts) == len(val.elts) and not any(isinstance(e, ast.Starred) for e in list(tgt[0].elts) + list(val.elts)):
+                out.append((st, val.elts[idx]))
+            else:
+                out.append((st, None))
+        elif isinstance(idx, int) and isinstance(val, ast.Name) and isinstance(st, ast.Assign) and _depth < 2 and val.id != name:
+            # a, b = pair  with  pair = (x, y)  bound once (``pair = None`` on a path that cannot reach the unpacking does not count)
+            tgt = [t for t in st.targets if isinstance(t, (ast.Tuple, ast.List)) and len(t.elts) > idx and
+                   isinstance(t.elts[idx], ast.Name) and t.elts[idx].id == name]
+            pd = [v for s2, v in _defs(fi, val.id, _depth + 1) if not (isinstance(v, ast.Constant) and v.value is None)]
+            if tgt and len(pd) == 1 and isinstance(pd[0], (ast.Tuple, ast.List)) and len(pd[0].elts) == len(tgt[0].elts) and \
+                    not any(isinstance(e, ast.Starred) for e in list(tgt[0].elts) + list(pd[0].elts)):
+                out.append((st, pd[0].elts[idx]))
+            else:
+                out.append((st, None))
+        else:
+            out.append((st, None))
+    return out
+
+
+def _single_def(fi, name):
+    """The value of a local that is bound exactly once (by a plain or element-wise assignment), else None."""
+    if name in _all_params(fi) or _stores(fi.node, name) != 1:
+        return None
+    d = _defs(fi, name)
+    if len(d) == 1 and d[0][1] is not None:
+        return d[0][1]
+    return None
+
+
+def _inline(fi, expr, stable=(), outer=None, depth=0):
+    """Copy of ``expr`` in which single-assignment locals of ``fi`` are replaced by their value, provided every
+    name the value reads is never re-bound (a parameter, a name in ``stable``, or a free variable that the
+    enclosing function ``outer`` never re-binds)."""
+    fn = fi.node
+    params = _all_params(fi)
+
+    def is_stable(n):
+        if n in stable:
+            return True
+        k = _stores(fn, n)
+        if k:
+            return False
+        if n in params:
+            return True
+        return outer is None or _stores(outer.node, n) == 0
+
+    class T(ast.NodeTransformer):
+        def visit_Name(self, node):
+            if not isinstance(node.ctx, ast.Load) or depth > 8 or node.id in params or node.id in stable:
+                return node
+            d = _single_def(fi, node.id)
+            if d is None:
+                return node
+            d2 = _inline(fi, d, stable, outer, depth + 1)
+            if all(is_stable(n) for n in names_loaded(d2)):
+                return d2
+            return node
+
+        def visit_Lambda(self, node):
+            return node
+
+    return T().visit(copy.deepcopy(expr))
+
+
+def _item_stores(fi, name):
+    """[(stmt, key expr)] for every ``name[key] = ...`` in the function (also as an element of a tuple target)."""
+    out = []
+    for st in stmts_of(fi.node):
+        if isinstance(st, (ast.Assign, ast.AugAssign, ast.AnnAssign)):
+            for t in (st.targets if isinstance(st, ast.Assign) else [st.target]):
+                for x in (t.elts if isinstance(t, (ast.Tuple, ast.List)) else [t]):
+                    if isinstance(x, ast.Subscript) and isinstance(x.value, ast.Name) and x.value.id == name:
+                        out.append((st, x.slice))
+    return out
+
+
+def _bound_var(mod, node):
+    """Name of the local an expression node is assigned to (``v = <node>`` or ``v, w = <node>, ...``), else None."""
+    p = mod.parents.get(node)
+    if isinstance(p, ast.Assign) and p.value is node and len(p.targets) == 1 and isinstance(p.targets[0], ast.Name):
+        return p.targets[0].id
+    if isinstance(p, (ast.Tuple, ast.List)):
+        pp = mod.parents.get(p)
+        if isinstance(pp, ast.Assign) and pp.value is p and len(pp.targets) == 1 and isinstance(pp.targets[0], (ast.Tuple, ast.List)) and \
+                len(pp.targets[0].elts) == len(p.elts) and not any(isinstance(e, ast.Starred) for e in list(p.elts) + list(pp.targets[0].elts)):
+            t = pp.targets[0].elts[list(p.elts).index(node)]
+            if isinstance(t, ast.Name):
+                return t.id
+    return None
+
+
+# ---- symbolic evaluation of the string handed to re.compile ---------------------------------------
+
+def _lit(s):
+    return ('s', (('lit', s),) if s else ())
+
+
+def _toks(v):
+    if v[0] == 's':
+        return v[1]
+    if v[0] == '?':
+        return (('sym', v[1]),)
+    return None
+
+
+def _concat(*vals):
+    out = []
+    for v in vals:
+        t = _toks(v)
+        if t is None:
+            return ('?', 'non-string operand')
+        for tok in t:
+            if tok[0] == 'lit' and out and out[-1][0] == 'lit':
+                out[-1] = ('lit', out[-1][1] + tok[1])
+            else:
+                out.append(tok)
+    return ('s', tuple(out))
+
+
+def _show(v):
+    if v is None:
+        return '?'
+    if v[0] == 's':
+        parts = []
+        for tok in v[1]:
+            if tok[0] == 'lit':
+                parts.append(repr(tok[1]))
+            elif tok[0] == 'join':
+                parts.append('%s.join(%s)' % (_show(('s', tok[1])), tok[2]))
+            else:
+                parts.append('<%s>' % tok[1])
+        return ' + '.join(parts) or "''"
+    if v[0] == 're':
+        return 're.compile(%s)' % _show(v[1])
+    if v[0] == 't':
+        return '(%s)' % ', '.join(_show(x) for x in v[1])
+    return '<%s>' % (v[1],)
+
+
+class _SymExec(object):
+    """Path-sensitive symbolic evaluation of a function body under one assumption about the slash mode.  Tracked
+    values are immutable (strings, booleans, compiled regexes, tuples of them), so only re-binding matters:
+    loops and statements that are not interpreted forget every name they bind.  Values:
+      ('s', tokens)   string; tokens: ('lit', text) | ('join', separator tokens, list expression) | ('sym', text)
+      ('b', bool)     known truth value        ('re', value, plain)   re.compile(value), plain = no flags
+      ('t', values)   tuple                    ('?', text)            unknown"""
+
+    def __init__(self, repo, fi, mode_param, strict_value, strict):
+        self.repo, self.fi, self.mod = repo, fi, fi.mod
+        self.mode_param, self.strict_value, self.strict = mode_param, strict_value, strict
+        self.locals = set(_all_params(fi)) | set(n for n in (x.id for x in walk_body(fi.node) if isinstance(x, ast.Name) and
+                                                             isinstance(x.ctx, (ast.Store, ast.Del))))
+        self.locals |= set(x.name for x in walk_body(fi.node) if isinstance(x, (ast.FunctionDef, ast.AsyncFunctionDef, ast.ClassDef)))
+        if _stores(fi.node, mode_param):
+            raise AnalysisError('%s: the mode parameter %s is re-bound' % (fi.qualname, mode_param))
+        for x in ast.walk(fi.node):
+            if isinstance(x, ast.Nonlocal):
+                raise AnalysisError('%s: nonlocal re-binding is not followed' % fi.qualname)
+        self.budget = 4000
+
+    # -- expressions
+    def _is_strict_const(self, e):
+        if isinstance(e, ast.Constant):
+            return e.value == self.strict_value and isinstance(e.value, str)
+        if isinstance(e, (ast.Name, ast.Attribute)):
+            if isinstance(e, ast.Name) and e.id in self.locals:
+                return False
+            return self.repo.try_fold(e, self.mod, default=None) == self.strict_value
+        return False
+
+    def ev(self, e, env):
+        if isinstance(e, ast.Constant):
+            if isinstance(e.value, bool):
+                return ('b', e.value)
+            if isinstance(e.value, str):
+                return _lit(e.value)
+            return ('?', norm(e))
+        if isinstance(e, ast.Name):
+            if e.id in env:
+                return env[e.id]
+            if e.id not in self.locals:
+                v = self.repo.try_fold(e, self.mod, default=None)
+                if isinstance(v, str):
+                    return _lit(v)
+                if isinstance(v, bool):
+                    return ('b', v)
+            return ('?', e.id)
+        if isinstance(e, ast.Compare) and len(e.ops) == 1 and isinstance(e.ops[0], (ast.Eq, ast.NotEq)):
+            l, r = e.left, e.comparators[0]
+            for a, b in ((l, r), (r, l)):
+                if isinstance(a, ast.Name) and a.id == self.mode_param and self._is_strict_const(b):
+                    return ('b', self.strict == isinstance(e.ops[0], ast.Eq))
+            return ('?', short(e, 40))
+        if isinstance(e, ast.UnaryOp) and isinstance(e.op, ast.Not):
+            v = self.ev(e.operand, env)
+            return ('b', not v[1]) if v[0] == 'b' else ('?', short(e, 40))
+        if isinstance(e, ast.BoolOp):
+            vs = [self.ev(x, env) for x in e.values]
+            decisive = isinstance(e.op, ast.Or)
+            if any(v[0] == 'b' and v[1] is decisive for v in vs):
+                return ('b', decisive)
+            if all(v[0] == 'b' for v in vs):
+                return ('b', not decisive)
+            return ('?', short(e, 40))
+        if isinstance(e, ast.IfExp):
+            t = self.ev(e.test, env)
+            if t[0] == 'b':
+                return self.ev(e.body if t[1] else e.orelse, env)
+            return ('?', short(e, 40))
+        if isinstance(e, ast.Tuple):
+            return ('t', tuple(self.ev(x, env) for x in e.elts))
+        if isinstance(e, ast.BinOp) and isinstance(e.op, ast.Add):
+            l, r = self.ev(e.left, env), self.ev(e.right, env)
+            if l[0] == 's' or r[0] == 's':
+                return _concat(l, r)
+            return ('?', short(e, 40))
+        if isinstance(e, ast.BinOp) and isinstance(e.op, ast.Mod):
+            return self._percent(e, env)
+        if isinstance(e, ast.JoinedStr):
+            parts = []
+            for v in e.values:
+                if isinstance(v, ast.Constant):
+                    parts.append(_lit(str(v.value)))
+                elif isinstance(v, ast.FormattedValue) and v.format_spec is None and v.conversion in (-1, 115):
+                    parts.append(self.ev(v.value, env))
+                else:
+                    return ('?', short(e, 40))
+            return _concat(*parts)
+        if isinstance(e, ast.Call):
+            f = e.func
+            if norm(f) == 're.compile' and e.args and not isinstance(e.args[0], ast.Starred):
+                return ('re', self.ev(e.args[0], env), len(e.args) == 1 and not e.keywords)
+            if isinstance(f, ast.Attribute) and f.attr == 'join' and len(e.args) == 1 and not e.keywords:
+                sepv = self.ev(f.value, env)
+                a = e.args[0]
+                base = a.value if isinstance(a, ast.Subscript) and isinstance(a.slice, ast.Slice) else a
+                if _toks(sepv) is not None and isinstance(base, ast.Name):
+                    return ('s', (('join', _toks(sepv), norm(a)),))
+                if _toks(sepv) is not None and isinstance(a, (ast.List, ast.Tuple)) and not any(isinstance(x, ast.Starred) for x in a.elts):
+                    parts = []          # ''.join(['^', body, tail, '$'])
+                    for i, x in enumerate(a.elts):
+                        if i:
+                            parts.append(sepv)
+                        parts.append(self.ev(x, env))
+                    return _concat(*parts) if parts else _lit('')
+                return ('?', short(e, 40))
+            if isinstance(f, ast.Attribute) and f.attr == 'format':
+                return self._format(e, env)
+            return ('?', short(e, 40))
+        return ('?', short(e, 40))
+
+    def _percent(self, e, env):
+        t = self.ev(e.left, env)
+        if not (t[0] == 's' and len(t[1]) == 1 and t[1][0][0] == 'lit'):
+            return ('?', short(e, 40))
+        tmpl = t[1][0][1]
+        args = [self.ev(x, env) for x in e.right.elts] if isinstance(e.right, ast.Tuple) else [self.ev(e.right, env)]
+        parts, i, cur = [], 0, ''
+        k = 0
+        while k < len(tmpl):
+            ch = tmpl[k]
+            if ch != '%':
+                cur += ch
+                k += 1
+                continue
+            nxt = tmpl[k + 1:k + 2]
+            if nxt == '%':
+                cur += '%'
+            elif nxt == 's' and i < len(args):
+                parts.append(_lit(cur))
+                cur = ''
+                parts.append(args[i])
+                i += 1
+            else:
+                return ('?', short(e, 40))
+            k += 2
+        if i != len(args):
+            return ('?', short(e, 40))
+        parts.append(_lit(cur))
+        return _concat(*parts)
+
+    def _format(self, e, env):
+        t = self.ev(e.func.value, env)
+        if not (t[0] == 's' and len(t[1]) == 1 and t[1][0][0] == 'lit') or any(isinstance(a, ast.Starred) for a in e.args) or \
+                any(k.arg is None for k in e.keywords):
+            return ('?', short(e, 40))
+        pos = [self.ev(a, env) for a in e.args]
+        kws = dict((k.arg, self.ev(k.value, env)) for k in e.keywords)
+        parts, auto = [], 0
+        try:
+            fields = list(string.Formatter().parse(t[1][0][1]))
+        except ValueError:
+            return ('?', short(e, 40))
+        for text, field, spec, conv in fields:
+            parts.append(_lit(text))
+            if field is None:
+                continue
+            if spec or conv not in (None, 's'):
+                return ('?', short(e, 40))
+            if field == '':
+                field = str(auto)
+                auto += 1
+            if field.isdigit() and int(field) < len(pos):
+                parts.append(pos[int(field)])
+            elif field in kws:
+                parts.append(kws[field])
+            else:
+                return ('?', short(e, 40))
+        return _concat(*parts)
+
+    # -- statements
+    def _forget(self, env, names):
+        e2 = dict(env)
+        for n in names:
+            e2[n] = ('?', n)
+        return e2
+
+    def _bound_in(self, st):
+        out = set(names_stored(st))
+        for x in ast.walk(st):
+            if isinstance(x, (ast.FunctionDef, ast.AsyncFunctionDef, ast.ClassDef)):
+                out.add(x.name)
+            elif isinstance(x, ast.ExceptHandler) and x.name:
+                out.add(x.name)
+            elif isinstance(x, (ast.Import, ast.ImportFrom)):
+                out |= set((a.asname or a.name.split('.')[0]) for a in x.names)
+        return out
+
+    def block(self, stmts, env):
+        """Yields ('fall' | 'return', value, env) for every path through the statement list."""
+        if not stmts:
+            yield ('fall', None, env)
+            return
+        for kind, val, e2 in self.step(stmts[0], env):
+            if kind == 'fall':
+                for r in self.block(stmts[1:], e2):
+                    yield r
+            else:
+                yield (kind, val, e2)
+
+    def step(self, st, env):
+        self.budget -= 1
+        if self.budget < 0:
+            raise AnalysisError('%s: too many paths for the symbolic evaluation' % self.fi.qualname)
+        walrus = set(x.target.id for x in ast.walk(st) if isinstance(x, ast.NamedExpr) and isinstance(x.target, ast.Name))
+        if walrus:
+            env = self._forget(env, walrus)
+        if isinstance(st, ast.Assign) or (isinstance(st, ast.AnnAssign) and st.value is not None):
+            targets = st.targets if isinstance(st, ast.Assign) else [st.target]
+            val = self.ev(st.value, env)
+            e2 = dict(env)
+            for t in targets:
+                if isinstance(t, ast.Name):
+                    e2[t.id] = val
+                elif isinstance(t, (ast.Tuple, ast.List)) and val[0] == 't' and len(val[1]) == len(t.elts) and \
+                        all(isinstance(x, ast.Name) for x in t.elts):
+                    for x, v in zip(t.elts, val[1]):
+                        e2[x.id] = v
+                else:
+                    for n in names_stored(t):
+                        e2[n] = ('?', n)
+            yield ('fall', None, e2)
+        elif isinstance(st, ast.AugAssign):
+            e2 = dict(env)
+            if isinstance(st.target, ast.Name):
+                old = env.get(st.target.id, ('?', st.target.id))
+                new = self.ev(st.value, env)
+                if isinstance(st.op, ast.Add) and (old[0] == 's' or new[0] == 's'):
+                    e2[st.target.id] = _concat(old, new)
+                else:
+                    e2[st.target.id] = ('?', st.target.id)
+            yield ('fall', None, e2)
+        elif isinstance(st, ast.If):
+            t = self.ev(st.test, env)
+            branches = [st.body if t[1] else st.orelse] if t[0] == 'b' else [st.body, st.orelse]
+            for b in branches:
+                for r in self.block(b, dict(env)):
+                    yield r
+        elif isinstance(st, (ast.For, ast.AsyncFor, ast.While)):
+            # the body is not interpreted: a name it binds is unknown afterwards -- unless every binding of it in the
+            # loop is ``name = '<literal>'``: then it holds its old value or one of those literals (one path each)
+            bound = self._bound_in(st)
+            cands = {}
+            for n in sorted(bound):
+                binders = [x for x in ast.walk(st) if n in self._bound_in(x) and isinstance(x, ast.stmt) and
+                           not isinstance(x, (ast.If, ast.For, ast.AsyncFor, ast.While, ast.Try, ast.With, ast.AsyncWith))]
+                if n in env and binders and all(isinstance(x, ast.Assign) and len(x.targets) == 1 and isinstance(x.targets[0], ast.Name) and
+                                                isinstance(x.value, ast.Constant) and isinstance(x.value.value, str) for x in binders) and \
+                        not (isinstance(st, (ast.For, ast.AsyncFor)) and n in names_stored(st.target)):
+                    vals = [env[n]]
+                    for x in binders:
+                        if _lit(x.value.value) not in vals:
+                            vals.append(_lit(x.value.value))
+                    cands[n] = vals
+            envs = [self._forget(env, bound - set(cands))]
+            for n, vals in sorted(cands.items()):
+                envs = [dict(e, **{n: v}) for e in envs for v in vals]
+            for e2 in envs[:64]:
+                e2['$loops'] = env.get('$loops', ()) + ((st, dict(e2)),)
+                if any(isinstance(x, ast.Return) for x in ast.walk(st)):
+                    yield ('return', ('?', 'return inside a loop'), e2)
+                yield ('fall', None, e2)
+        elif isinstance(st, ast.Try):
+            if any(isinstance(x, ast.Return) for s in st.finalbody for x in ast.walk(s)):
+                raise AnalysisError('%s: return inside finally is not followed' % self.fi.qualname)
+            for kind, val, e2 in self.block(st.body, env):
+                if kind == 'fall':
+                    for r in self.block(list(st.orelse) + list(st.finalbody), e2):
+                        yield r
+                else:
+                    for k3, v3, e3 in self.block(st.finalbody, e2):
+                        yield (kind, val, e3)
+            eh = self._forget(env, set().union(*[self._bound_in(s) for s in st.body]) if st.body else set())
+            for h in st.handlers:
+                e3 = self._forget(eh, [h.name] if h.name else [])
+                for r in self.block(list(h.body) + list(st.finalbody), e3):
+                    yield r
+        elif isinstance(st, (ast.With, ast.AsyncWith)):
+            names = set()
+            for it in st.items:
+                if it.optional_vars is not None:
+                    names |= names_stored(it.optional_vars)
+            for r in self.block(st.body, self._forget(env, names)):
+                yield r
+        elif isinstance(st, ast.Return):
+            yield ('return', self.ev(st.value, env) if st.value is not None else ('?', 'None'), env)
+        elif isinstance(st, ast.Raise):
+            return
+        elif isinstance(st, (ast.Expr, ast.Pass, ast.Global, ast.Assert, ast.Break, ast.Continue)):
+            yield ('fall', None, env)
+        else:
+            e2 = self._forget(env, self._bound_in(st))
+            if any(isinstance(x, ast.Return) for x in ast.walk(st)) and not isinstance(st, (ast.FunctionDef, ast.AsyncFunctionDef, ast.ClassDef)):
+                yield ('return', ('?', 'return inside %s' % type(st).__name__), e2)
+            yield ('fall', None, e2)
+
+    def returns(self):
+        return [(val, env) for kind, val, env in self.block(list(self.fi.node.body), {}) if kind == 'return']
+
+
+# ---- match_path (also used by C08) ------------------------------------------------------------------
 
 def check_match_path_no_raise(rep, rule):
     """Every converter call in BoundRoute.match_path really runs under a handler catching ValueError and TypeError
@@ -47,9 +564,8 @@ def check_match_path_no_raise(rep, rule):
     mp = route.func('BoundRoute.match_path')
     conv_vars = set()
     for n in ast.walk(mp.node):
-        if isinstance(n, ast.For) and 'converters' in norm(n.iter):
-            conv_vars |= set(x.id for x in ast.walk(n.target) if isinstance(x, ast.Name))
-        if isinstance(n, ast.comprehension) and 'converters' in norm(n.iter):
+        # what is iterated, seen through single-assignment temporaries (pairs = self.converters.items())
+        if isinstance(n, (ast.For, ast.comprehension)) and 'converters' in norm(_inline(mp, n.iter)):
             conv_vars |= set(x.id for x in ast.walk(n.target) if isinstance(x, ast.Name))
     conv_calls = [c for c in ast.walk(mp.node) if isinstance(c, ast.Call) and
                   ((isinstance(c.func, ast.Name) and c.func.id in conv_vars) or
@@ -68,54 +584,103 @@ def check_match_path_no_raise(rep, rule):
     return len(conv_calls)
 
 
-def run(rep):
+_MUTATORS = ('update', 'pop', 'popitem', 'clear', 'setdefault', 'append', 'extend', 'insert', 'remove', 'sort', 'reverse',
+             '__setitem__', '__delitem__')
+
+
+def _check_unmutated(mod, names):
+    """A folded table is only what its defining statements say: any in-place modification elsewhere in the module
+    (``T[k] = v``, ``del T[k]``, ``T.update(...)``, re-binding inside a function) is not followed."""
+    for n in ast.walk(mod.tree):
+        what = None
+        if isinstance(n, ast.Subscript) and isinstance(n.ctx, (ast.Store, ast.Del)) and isinstance(n.value, ast.Name) and n.value.id in names:
+            what = n.value.id
+        elif isinstance(n, ast.Call) and isinstance(n.func, ast.Attribute) and n.func.attr in _MUTATORS and \
+                isinstance(n.func.value, ast.Name) and n.func.value.id in names:
+            what = n.func.value.id
+        elif isinstance(n, ast.Global) and set(n.names) & set(names):
+            fn = mod.enclosing_function(n)
+            if fn is not None and any(isinstance(x, ast.Name) and x.id in names and isinstance(x.ctx, (ast.Store, ast.Del)) for x in ast.walk(fn)):
+                what = sorted(set(n.names) & set(names))[0]
+        if what is not None:
+            fn = mod.enclosing_function(n)
+            if fn is not None and what in [a.arg for a in fn.args.posonlyargs + fn.args.args + fn.args.kwonlyargs]:
+                continue        # a parameter of the same name
+            raise AnalysisError('%s is modified in place (line %s): its value cannot be folded from its definition' % (what, getattr(n, 'lineno', '?')))
+
+
+# ---- R05.a ------------------------------------------------------------------------------------------
+
+def _type_tables(rep):
+    """-> (convs: type name -> (converter symbol name, pattern text), pats: constant name -> pattern text)"""
     repo = rep.repo
     route = repo.mod(ROUTE)
-    rep.decide('R05.a type tables and pattern constants; R05.b operator tables vs quantifiers; R05.c five rejections; '
-               'R05.d anchoring / separators / no-raise matching; R05.e converter shapes; R05.f segment structure (automata)')
-    rep.decline('pattern x path matching semantics as a whole (language of a regex assembled at run time); greedy '
-                'backtracking between adjacent bindings; conversion values')
-    rep.assume('re._parser gives the syntax tree the re module compiles')
-    rep.rule('R05.a', 'table agreement + regex-AST queries + automata inclusion on the type pattern constants')
-    rep.rule('R05.b', 'operator tables agree with the quantifier each operator becomes')
-    rep.rule('R05.c', 'guarded raise InvalidPattern for each documented defect; Route.__init__ compiles first')
-    rep.rule('R05.d', "'^'...'$', separators per mode, handlers in match_path")
-    rep.rule('R05.e', 'build_converter branches')
-    rep.rule('R05.f', 'language equality of the instantiated segment template with an independent specification')
-
-    # ---- R05.a -----------------------------------------------------------
-    dc = route.assigns.get('DEFAULT_CONVS', [])
-    if len(dc) != 1 or not isinstance(dc[0], ast.List):
-        raise AnalysisError('DEFAULT_CONVS literal list not found')
+    if 'DEFAULT_CONVS' not in route.assigns:
+        raise AnalysisError('DEFAULT_CONVS not found')
+    _check_unmutated(route, ('DEFAULT_CONVS',))
+    try:
+        rows = repo.fold(ast.Name(id='DEFAULT_CONVS', ctx=ast.Load()), route, sym=True)
+    except Unfoldable as e:
+        raise AnalysisError('DEFAULT_CONVS cannot be folded to a table: %s' % e)
+    if not isinstance(rows, (list, tuple)):
+        raise AnalysisError('DEFAULT_CONVS is not a sequence of rows: %r' % (rows,))
+    pats = {}
+    for name in PATTERN_NAMES:
+        try:
+            pats[name] = route.const(name)
+        except Exception as e:
+            raise AnalysisError('cannot fold %s: %s' % (name, e))
+        if not isinstance(pats[name], str):
+            raise AnalysisError('%s is not a string constant' % name)
     convs = {}
-    for e in dc[0].elts:
-        if not (isinstance(e, ast.Tuple) and len(e.elts) == 3 and isinstance(e.elts[0], ast.Constant)):
-            raise AnalysisError('DEFAULT_CONVS entry %s' % norm(e))
-        convs[e.elts[0].value] = (norm(e.elts[1]), norm(e.elts[2]), e)
+    for r in rows:
+        if not (isinstance(r, (tuple, list)) and len(r) == 3 and isinstance(r[0], str)):
+            raise AnalysisError('DEFAULT_CONVS entry %r' % (r,))
+        if not isinstance(r[1], Sym) or not isinstance(r[2], str):
+            raise AnalysisError('DEFAULT_CONVS entry %r: converter / pattern cannot be told statically' % (r,))
+        convs[r[0]] = (r[1].name, r[2])
+    anchor = None
+    for st in route.tree.body:
+        if isinstance(st, (ast.Assign, ast.AugAssign, ast.AnnAssign)) and 'DEFAULT_CONVS' in names_stored(st):
+            anchor = st
+            break
+    pname = lambda p: ([n for n in PATTERN_NAMES if pats[n] == p] or [repr(p)])[0]
     want = {'int': ('int', '_INT_PATTERN'), 'float': ('float', '_FLOAT_PATTERN'), 'str': ('str', '_STR_PATTERN'), 'unicode': ('str', '_STR_PATTERN')}
     for t, (wc, wp) in want.items():
         got = convs.get(t)
-        ok = got is not None and (got[0] == wc or (wc == 'str' and got[0] in ('str', 'unicode'))) and got[1] == wp
-        rep.check('R05.a', '%s::DEFAULT_CONVS[%s]' % (ROUTE, t), ok, "type '%s' -> converter %s, pattern %s" % (t, got[0] if got else None, got[1] if got else None) if ok else
-                  "type '%s' is paired with converter/pattern %s (expected %s/%s)" % (t, got[:2] if got else None, wc, wp), route, got[2] if got else dc[0])
+        ok = got is not None and (got[0] == wc or (wc == 'str' and got[0] in ('str', 'unicode'))) and got[1] == pats[wp]
+        rep.check('R05.a', '%s::DEFAULT_CONVS[%s]' % (ROUTE, t), ok, "type '%s' -> converter %s, pattern %s" % (t, got[0] if got else None, pname(got[1]) if got else None) if ok else
+                  "type '%s' is paired with converter/pattern %s (expected %s/%s)" % (t, (got[0], pname(got[1])) if got else None, wc, wp), route, anchor)
     # registration loop feeds both maps from the same tuple
     rc = route.func('_register_converter')
     ps = rc.params()
+    if len(ps) != 3:
+        raise AnalysisError('_register_converter: expected (name, func, pattern)')
     stores = dict((norm(s.targets[0]), norm(s.value)) for s in stmts_of(rc.node) if isinstance(s, ast.Assign))
     ok = stores.get('TYPE_CONV_MAP[%s]' % ps[0]) == ps[1] and stores.get('TYPE_PATT_MAP[%s]' % ps[0]) == ps[2]
     rep.check('R05.a', fkey(rc), ok, 'converter and pattern are registered under the same name' if ok else
               '_register_converter cross-wires the tables: %s' % stores, route, rc.node)
     loops = [s for s in route.tree.body if isinstance(s, ast.For) and norm(s.iter) == 'DEFAULT_CONVS']
-    ok = len(loops) == 1 and any(isinstance(c, ast.Call) and call_name(c) == '_register_converter' and
-                                 [norm(a) for a in c.args] == [norm(x) for x in loops[0].target.elts] for c in ast.walk(loops[0]))
+
+    def registers_row(loop):
+        for c in ast.walk(loop):
+            if not (isinstance(c, ast.Call) and call_name(c) == '_register_converter') or c.keywords:
+                continue
+            if isinstance(loop.target, (ast.Tuple, ast.List)) and [norm(a) for a in c.args] == [norm(x) for x in loop.target.elts]:
+                return True
+            if isinstance(loop.target, ast.Name) and len(c.args) == 1 and isinstance(c.args[0], ast.Starred) and norm(c.args[0].value) == loop.target.id:
+                return True
+        return False
+    ok = len(loops) == 1 and registers_row(loops[0]) and not loops[0].orelse and \
+        not any(isinstance(x, (ast.If, ast.Break, ast.Continue, ast.Try)) for x in ast.walk(loops[0]))
+    # the table is complete when the loop runs: nothing binds DEFAULT_CONVS after it
+    if ok:
+        body = list(route.tree.body)
+        ok = not any('DEFAULT_CONVS' in names_stored(st) for st in body[body.index(loops[0]) + 1:]
+                     if not isinstance(st, (ast.FunctionDef, ast.AsyncFunctionDef, ast.ClassDef)))
     rep.check('R05.a', '%s::registration loop' % ROUTE, ok, 'every DEFAULT_CONVS entry is registered as (name, func, pattern)' if ok else
               'DEFAULT_CONVS is not registered entry by entry in order', route, loops[0] if loops else None)
-    pats = {}
-    for name in ('_INT_PATTERN', '_FLOAT_PATTERN', '_STR_PATTERN'):
-        try:
-            pats[name] = route.const(name)
-        except Exception as e:
-            raise AnalysisError('cannot fold %s: %s' % (name, e))
+    for name in PATTERN_NAMES:
         p = pats[name]
         rep.check('R05.a', '%s::%s::no slash' % (ROUTE, name), not regexq.can_consume(p, '/'),
                   '%s cannot consume "/" (a value never swallows the next segment)' % name if not regexq.can_consume(p, '/') else
@@ -134,47 +699,136 @@ def run(rep):
         rep.check('R05.a', '%s::inclusion::%s' % (ROUTE, label), ok, 'automata inclusion holds: %s' % label if ok else
                   'language inclusion fails (%s): %r is matched by %r but not by %r' % (label, w, a, b), route)
     rep.floor('R05.a', 18)
+    return convs, pats
 
-    # ---- R05.b -----------------------------------------------------------
+
+# ---- roles of the variables of _compile_path_pattern ---------------------------------------------------
+
+class _Roles(object):
+    pass
+
+
+def _roles(rep):
+    """Locate, by role, the pieces of _compile_path_pattern every later rule talks about."""
+    repo = rep.repo
+    route = repo.mod(ROUTE)
+    cp = route.func('_compile_path_pattern')
+    R = _Roles()
+    R.route, R.cp, R.cfg = route, cp, cfg_of(cp)
+    if len(cp.params()) < 2:
+        raise AnalysisError('_compile_path_pattern: expected (pattern, mode)')
+    R.pvar, R.mode = cp.params()[0], cp.params()[1]
+    fmt_calls = [c for c in walk_body(cp.node) if isinstance(c, ast.Call) and call_tail(c) == 'format' and norm(c.func.value) == '_SEG_TMPL']
+    if len(fmt_calls) != 1:
+        raise AnalysisError('_compile_path_pattern: _SEG_TMPL.format call not found')
+    R.fc = fmt_calls[0]
+    if R.fc.args:
+        raise AnalysisError('_compile_path_pattern: _SEG_TMPL.format is not called with keyword arguments')
+    R.kw = {}
+    for k in R.fc.keywords:
+        if k.arg is not None:
+            R.kw[k.arg] = k.value
+            continue
+        # _SEG_TMPL.format(**fields) with fields = dict(name=..., ...) / {'name': ..., ...} bound once
+        d = _single_def(cp, k.value.id) if isinstance(k.value, ast.Name) else k.value
+        if isinstance(d, ast.Dict) and all(isinstance(x, ast.Constant) and isinstance(x.value, str) for x in d.keys):
+            R.kw.update((x.value, v) for x, v in zip(d.keys, d.values))
+        elif isinstance(d, ast.Call) and norm(d.func) == 'dict' and not d.args and all(x.arg for x in d.keywords):
+            R.kw.update((x.arg, x.value) for x in d.keywords)
+        else:
+            raise AnalysisError('_compile_path_pattern: the fields given to _SEG_TMPL.format cannot be told statically')
+    R.kwt = dict((k, norm(v)) for k, v in R.kw.items())
+    R.opvar = R.kwt.get('arity') if isinstance(R.kw.get('arity'), ast.Name) else None
+    # table lookups: table name -> [(Subscript node, key text, local it is bound to)]
+    R.lookups = dict((tab, []) for tab in TYPE_TABLES + OP_TABLES)
+    for n in walk_body(cp.node):
+        if isinstance(n, ast.Subscript) and isinstance(n.ctx, ast.Load) and isinstance(n.value, ast.Name) and \
+                n.value.id in TYPE_TABLES + OP_TABLES and n.value.id not in _all_params(cp) and not _stores(cp.node, n.value.id):
+            R.lookups.setdefault(n.value.id, []).append((n, norm(n.slice), _bound_var(route, n)))
+
+    missing = [tab for tab in TYPE_TABLES + OP_TABLES if not R.lookups[tab]]
+    if missing:
+        raise AnalysisError('_compile_path_pattern: no lookup %s[...] found' % missing[0])
+
+    def table_of(expr):
+        """(table, key text) an expression reads: a direct lookup or a local bound once to a lookup."""
+        if isinstance(expr, ast.Name):
+            for tab, ls in R.lookups.items():
+                for node, key, var in ls:
+                    if var == expr.id and _stores(cp.node, var) == 1:
+                        return tab, key
+            return None, None
+        if isinstance(expr, ast.Subscript) and isinstance(expr.value, ast.Name) and expr.value.id in R.lookups:
+            return expr.value.id, norm(expr.slice)
+        return None, None
+    R.table_of = table_of
+    bc = [c for c in walk_body(cp.node) if isinstance(c, ast.Call) and call_name(c) == 'build_converter']
+    R.bc = bc[0] if len(bc) == 1 else None
+    cp_rets = [r for r in returns_of(cp) if isinstance(r.value, ast.Tuple) and len(r.value.elts) == 2]
+    if len(cp_rets) != 1 or len(returns_of(cp)) != 1 or not isinstance(cp_rets[0].value.elts[1], ast.Name):
+        raise AnalysisError('_compile_path_pattern: expected a single "return regex, converter_map"')
+    R.vcm = cp_rets[0].value.elts[1].id
+    tkeys = set(key for tab in TYPE_TABLES for node, key, var in R.lookups.get(tab, []))
+    R.typevar = list(tkeys)[0] if len(tkeys) == 1 and re.match(r'^[A-Za-z_]\w*$', list(tkeys)[0]) else None
+    R.namevar = R.kwt.get('name') if isinstance(R.kw.get('name'), ast.Name) else None
+    loops = [s for s in stmts_of(cp.node) if isinstance(s, (ast.For, ast.While)) and any(x is R.fc for x in ast.walk(s))]
+    R.loop = loops[-1] if loops else None     # innermost loop containing the segment construction
+    return R
+
+
+# ---- R05.b ------------------------------------------------------------------------------------------
+
+def _operator_tables(rep):
+    route = rep.repo.mod(ROUTE)
+    _check_unmutated(route, OP_TABLES)
     try:
         arity = route.const('_OP_ARITY_MAP')
         opt = route.const('_OP_OPTIONALITY_MAP')
         seg = route.const('_SEG_TMPL')
     except Exception as e:
         raise AnalysisError('cannot fold operator tables: %s' % e)
+    if not (isinstance(arity, dict) and isinstance(opt, dict) and isinstance(seg, str)):
+        raise AnalysisError('operator tables / segment template are not a dict / dict / string')
+    return arity, opt, seg
+
+
+def _rule_b(rep, R, tabs):
+    route, cp, ccfg = R.route, R.cp, R.cfg
+    arity, opt, seg = tabs
     rep.check('R05.b', '%s::operator tables keys' % ROUTE, set(arity) == set(opt), 'both operator tables have keys %s' % sorted(arity) if set(arity) == set(opt) else
               'operator tables disagree on their keys: %s vs %s' % (sorted(arity), sorted(opt)), route)
     need = {'', '?', ':', '+', '*'}
     rep.check('R05.b', '%s::operators' % ROUTE, set(arity) == need, 'the documented operators are all present' if set(arity) == need else
               'operators %s (documented: %s)' % (sorted(arity), sorted(need)), route)
-    cp = route.func('_compile_path_pattern')
-    ccfg = cfg_of(cp)
-    fmt_calls = [c for c in walk_body(cp.node) if isinstance(c, ast.Call) and call_tail(c) == 'format' and norm(c.func.value) == '_SEG_TMPL']
-    if len(fmt_calls) != 1:
-        raise AnalysisError('_compile_path_pattern: _SEG_TMPL.format call not found')
-    fc = fmt_calls[0]
-    kw = dict((k.arg, norm(k.value)) for k in fc.keywords)
-    opvar = kw.get('arity')
-    lookups = [s for s in stmts_of(cp.node) if isinstance(s, ast.Assign) and isinstance(s.value, ast.Subscript)
-               and norm(s.value.value) in ('_OP_ARITY_MAP', '_OP_OPTIONALITY_MAP')]
-    ok = opvar is not None and len(lookups) == 2 and all(norm(s.value.slice) == opvar for s in lookups)
+    opvar = R.opvar
+    op_lookups = [x for tab in OP_TABLES for x in R.lookups.get(tab, [])]
+    ok = opvar is not None and all(len(R.lookups.get(tab, [])) == 1 for tab in OP_TABLES) and all(key == opvar for node, key, var in op_lookups)
     rep.check('R05.b', fkey(cp, 'operator is the quantifier'), ok, 'the looked-up operator %s is used verbatim as the group quantifier' % opvar if ok else
-              'the quantifier put into the segment (%s) is not the operator looked up in the tables' % opvar, route, fc)
-    norm_st = [s for s in stmts_of(cp.node) if isinstance(s, ast.Assign) and norm(s.targets[0]) == opvar and isinstance(s.value, ast.Constant)
-               and s.value.value == '' and has_cond(conds(cp, s), lambda t: norm(t) == "%s == ':'" % opvar, True)]
-    ok = len(norm_st) == 1 and all(ccfg.must_pass(ccfg.nodes_of(stmt_of(route, norm_st[0])) + [n.id for n in ccfg.nodes if n.kind == 'branch' and norm(n.test) == "%s == ':'" % opvar and n.pol is False],
-                                                  ccfg.entry, ccfg.nodes_of(s)) for s in lookups)
+              'the quantifier put into the segment (%s) is not the operator looked up in the tables' % R.kwt.get('arity'), route, R.fc)
+    is_colon = lambda t: isinstance(t, ast.Compare) and len(t.ops) == 1 and isinstance(t.ops[0], ast.Eq) and \
+        sorted([norm(t.left), norm(t.comparators[0])]) == sorted([str(opvar), "':'"])
+    norm_st = [s for s in stmts_of(cp.node) if isinstance(s, ast.Assign) and len(s.targets) == 1 and norm(s.targets[0]) == opvar and isinstance(s.value, ast.Constant)
+               and s.value.value == '' and has_cond(conds(cp, s), is_colon, True)]
+    # ... or through an alias table:  op = ALIASES.get(op, op)  with ALIASES == {':': ''}
+    norm_st += [s for s in stmts_of(cp.node) if isinstance(s, ast.Assign) and len(s.targets) == 1 and norm(s.targets[0]) == opvar and
+                _alias_lookup(rep.repo, route, cp, s.value, opvar) == {':': ''}]
+    users = [stmt_of(route, node) for node, key, var in op_lookups] + [stmt_of(route, R.fc)]
+    ok = opvar is not None and len(norm_st) == 1 and bool(op_lookups) and \
+        all(ccfg.must_pass(ccfg.nodes_of(norm_st[0]) + [n.id for n in ccfg.nodes if n.kind == 'branch' and is_colon(n.test) and n.pol is False],
+                           ccfg.entry, ccfg.nodes_of(s)) for s in users)
     rep.check('R05.b', fkey(cp, "':' normalised"), ok, "':' is normalised to '' before the table lookups (and before it could become a quantifier)" if ok else
               "the ':' operator is not normalised to '' before use", route, norm_st[0] if norm_st else cp.node)
     for op_ in sorted(arity):
         if op_ == ':':
-            ok = arity[':'] == arity[''] and opt[':'] == opt['']
+            ok = '' in arity and '' in opt and ':' in opt and arity[':'] == arity[''] and opt[':'] == opt['']
             rep.check('R05.b', "%s::operator ':'" % ROUTE, ok, "':' has the flags of ''" if ok else "':' and '' disagree", route)
             continue
-        rx = seg.format(name='x', sep='/', pattern='[^/]+', arity=op_)
+        if op_ not in opt:
+            continue
         try:
+            rx = seg.format(name='x', sep='/', pattern='[^/]+', arity=op_)
             lo, hi, greedy = regexq.group_quantifier(rx, 'x')
-        except AnalysisError as e:
+        except (AnalysisError, KeyError, IndexError, ValueError) as e:
             rep.fail('R05.b', "%s::operator %r" % (ROUTE, op_), 'segment template with operator %r: %s' % (op_, e), route)
             continue
         ok = (opt[op_] == (lo == 0)) and (arity[op_] == (hi > 1)) and greedy in ('greedy', 'none')
@@ -182,58 +836,114 @@ def run(rep):
                   'operator %r: quantifier {%s,%s}, optional=%s, multi=%s agree' % (op_, lo, 'inf' if hi == regexq.MAXREPEAT else hi, opt[op_], arity[op_]) if ok else
                   'operator %r becomes quantifier {%s,%s} but the tables say optional=%s multi=%s' % (op_, lo, hi, opt[op_], arity[op_]), route)
     # flags reach build_converter under the right keywords
-    bc = [c for c in walk_body(cp.node) if isinstance(c, ast.Call) and call_name(c) == 'build_converter']
-    src = dict((norm(s.targets[0]), norm(s.value.value)) for s in lookups)
-    from ..astutil import argn
     bc_params = route.func('build_converter').params()
     pos_of = lambda n: bc_params.index(n) if n in bc_params else None
-    ok = len(bc) == 1 and src.get(norm(argn(bc[0], 'multi', pos_of('multi')))) == '_OP_ARITY_MAP' and \
-        src.get(norm(argn(bc[0], 'optional', pos_of('optional')))) == '_OP_OPTIONALITY_MAP'
+    bc = R.bc
+    flag = lambda n: R.table_of(argn(bc, n, pos_of(n))) if bc is not None and argn(bc, n, pos_of(n)) is not None else (None, None)
+    ok = bc is not None and flag('multi') == ('_OP_ARITY_MAP', opvar) and flag('optional') == ('_OP_OPTIONALITY_MAP', opvar)
     rep.check('R05.b', fkey(cp, 'flags to build_converter'), ok, 'multi <- arity table, optional <- optionality table' if ok else
-              'build_converter receives the flags crossed or from the wrong table', route, bc[0] if bc else cp.node)
-    ok = kw.get('pattern') is not None and any(isinstance(s, ast.Assign) and norm(s.targets[0]) == kw['pattern'] and 'TYPE_PATT_MAP[' in norm(s.value) for s in stmts_of(cp.node)) and \
-        bc and any(isinstance(s, ast.Assign) and norm(s.targets[0]) == norm(bc[0].args[0]) and 'TYPE_CONV_MAP[' in norm(s.value) for s in stmts_of(cp.node))
+              'build_converter receives the flags crossed or from the wrong table', route, bc if bc is not None else cp.node)
+    conv_arg = argn(bc, bc_params[0] if bc_params else 'converter', 0) if bc is not None else None
+    pt, pk = R.table_of(R.kw['pattern']) if R.kw.get('pattern') is not None else (None, None)
+    ct, ck = R.table_of(conv_arg) if conv_arg is not None else (None, None)
+    ok = pt == 'TYPE_PATT_MAP' and ct == 'TYPE_CONV_MAP' and pk == ck and pk is not None
     rep.check('R05.b', fkey(cp, 'type tables used'), bool(ok), 'pattern <- TYPE_PATT_MAP[type], converter <- TYPE_CONV_MAP[type]' if ok else
-              'the segment pattern / converter do not come from the type tables', route, fc)
+              'the segment pattern / converter do not come from the type tables (under the same type name)', route, R.fc)
     rep.floor('R05.b', 9)
 
-    # names by role: the converter map is the second element of the returned pair, the segment list is what sep joins
-    cp_rets = [r for r in returns_of(cp) if isinstance(r.value, ast.Tuple) and len(r.value.elts) == 2]
-    if len(cp_rets) != 1:
-        raise AnalysisError('_compile_path_pattern: expected "return regex, converter_map"')
-    VCM = norm(cp_rets[0].value.elts[1])
-    # ---- R05.c -----------------------------------------------------------
+
+# ---- R05.c ------------------------------------------------------------------------------------------
+
+def _rule_c(rep, R):
+    repo = rep.repo
+    route, cp = R.route, R.cp
+    VCM, pvar = R.vcm, R.pvar
     rz = [r for r in raises_of(cp) if raise_type(r) == 'InvalidPattern']
     found = {}
-    pvar = cp.params()[0]
+    families = {'unknown type': TYPE_TABLES, 'unknown operator': OP_TABLES}
+
+    def membership(t, tables):
+        """('in' | 'notin', key text) for ``key in TABLE`` / ``key not in TABLE`` over one of the tables"""
+        if isinstance(t, ast.Compare) and len(t.ops) == 1 and isinstance(t.ops[0], (ast.In, ast.NotIn)) and norm(t.comparators[0]) in tables:
+            return ('in' if isinstance(t.ops[0], ast.In) else 'notin'), norm(t.left)
+        return None, None
+
+    def absent_from(cs, tables):
+        for t, pol in cs:
+            k, key = membership(t, tables)
+            if (k == 'notin' and pol is True) or (k == 'in' and pol is False):
+                return key
+        return None
+
+    def present_in(cs, tables):
+        return [membership(t, tables)[1] for t, pol in cs if (membership(t, tables)[0] == 'in' and pol is True) or
+                (membership(t, tables)[0] == 'notin' and pol is False)]
+
+    def rejecting_handler(node):
+        """the KeyError handler protecting ``node`` when every path through it raises InvalidPattern"""
+        h = protected_by(cp, node, 'KeyError')
+        if h is None or not handler_reraises_always(cp, h):
+            return None
+        rs = [x for x in ast.walk(h) if isinstance(x, ast.Raise)]
+        return h if rs and all(raise_type(x) == 'InvalidPattern' for x in rs) else None
     for r in rz:
         cs = conds(cp, r)
         tries = [(t, part) for t, part in enclosing_tries(route, r, cp.node)]
         in_handler = [h for t, part in tries if part == 'handler' for h in t.handlers if r in list(ast.walk(h))]
-        if has_cond(cs, lambda t: norm(t) == "%s.startswith('/')" % pvar, False):
+        if has_cond(cs, lambda t: norm(t) == "%s.startswith('/')" % pvar, False) or \
+                has_cond(cs, lambda t: norm(t) in ("%s[:1] != '/'" % pvar, "%s[0:1] != '/'" % pvar), True) or \
+                has_cond(cs, lambda t: norm(t) in ("%s[:1] == '/'" % pvar, "%s[0:1] == '/'" % pvar), False):
             found['leading slash'] = r
-        elif has_cond(cs, lambda t: norm(t) == "'//' in %s" % pvar, True):
+        elif has_cond(cs, lambda t: norm(t) == "'//' in %s" % pvar, True) or has_cond(cs, lambda t: norm(t) == "'//' not in %s" % pvar, False):
             found["'//'"] = r
-        elif has_cond(cs, lambda t: isinstance(t, ast.Compare) and isinstance(t.ops[0], ast.In) and norm(t.comparators[0]) == VCM, True):
+        elif has_cond(cs, lambda t: isinstance(t, ast.Compare) and len(t.ops) == 1 and isinstance(t.ops[0], ast.In) and norm(t.comparators[0]) == VCM, True) or \
+                has_cond(cs, lambda t: isinstance(t, ast.Compare) and len(t.ops) == 1 and isinstance(t.ops[0], ast.NotIn) and norm(t.comparators[0]) == VCM, False):
             found['duplicate binding'] = r
-        elif in_handler and 'KeyError' in norm(in_handler[0].type):
+        elif in_handler and in_handler[0].type is not None and 'KeyError' in norm(in_handler[0].type):
             tr = [t for t, part in tries if part == 'handler'][0]
             body = ' '.join(norm(b) for b in tr.body)
             if 'TYPE_CONV_MAP[' in body or 'TYPE_PATT_MAP[' in body:
                 found['unknown type'] = r
             elif '_OP_ARITY_MAP[' in body or '_OP_OPTIONALITY_MAP[' in body:
                 found['unknown operator'] = r
+        else:
+            # membership guard:  if key not in TABLE: raise InvalidPattern(...)
+            for label, tables in sorted(families.items()):
+                if absent_from(cs, tables) is not None:
+                    found[label] = r
     for label in ('leading slash', "'//'", 'duplicate binding', 'unknown type', 'unknown operator'):
         rep.check('R05.c', fkey(cp, 'rejects: ' + label), label in found, 'InvalidPattern is raised for: %s' % label if label in found else
                   'no guarded "raise InvalidPattern" for: %s' % label, route, found.get(label, cp.node))
-    dup_store = [s for s in stmts_of(cp.node) if isinstance(s, ast.Assign) and norm(s.targets[0]).startswith(VCM + '[')]
+    # every table lookup can only fail as InvalidPattern: it runs under a KeyError handler that always raises InvalidPattern, or after a
+    # membership test of the same key, or after such a lookup of the same key in the sister table (both tables have the same keys:
+    # R05.a registration / R05.b operator tables keys)
+    ccfg = R.cfg
+    start = ccfg.nodes_of(R.loop) if R.loop is not None and ccfg.nodes_of(R.loop) else ccfg.entry
+    for label, tables in sorted(families.items()):
+        looks = [(node, key) for tab in tables for node, key, var in R.lookups.get(tab, [])]
+        safe = [(node, key) for node, key in looks if rejecting_handler(node) is not None or key in present_in(conds(cp, node), tables)]
+        todo = [x for x in looks if x not in safe]
+        progress = True
+        while todo and progress:
+            progress = False
+            for node, key in list(todo):
+                cover = [n for other, k2 in safe if k2 == key for n in ccfg.nodes_of(stmt_of(route, other)) if stmt_of(route, other) is not stmt_of(route, node)]
+                if cover and ccfg.must_pass(cover, start, ccfg.nodes_of(stmt_of(route, node)), normal_only=True):
+                    safe.append((node, key))
+                    todo.remove((node, key))
+                    progress = True
+        ok = bool(looks) and not todo
+        rep.check('R05.c', fkey(cp, 'lookups guarded: ' + label), ok, 'every lookup in %s fails as InvalidPattern' % ' / '.join(tables) if ok else
+                  'a lookup in %s can raise a bare KeyError (not under the rejecting handler / membership test): %s' %
+                  (' / '.join(tables), short(stmt_of(route, todo[0][0]), 60) if todo else 'no lookup found'), route, todo[0][0] if todo else cp.node)
+    dup_store = _item_stores(cp, VCM)
     ok = len(dup_store) == 1 and 'duplicate binding' in found
     rep.check('R05.c', fkey(cp, 'bindings recorded'), ok, 'every binding is recorded, so a second use of the name is seen' if ok else
               'bindings are not recorded in var_converter_map', route, cp.node)
     ri = route.func('Route.__init__')
     rcfg = cfg_of(ri)
     cc = [stmt_of(route, c) for c in walk_body(ri.node) if isinstance(c, ast.Call) and call_name(c) == '_compile_path_pattern'
-          and norm(c.args[0]) == ri.params()[1]]
+          and c.args and len(ri.params()) > 1 and norm(c.args[0]) == ri.params()[1]]
     pst = [s for s in stmts_of(ri.node) if isinstance(s, ast.Assign) and norm(s.targets[0]) == 'self.pattern']
     ok = len(cc) == 1 and len(pst) == 1 and rcfg.must_pass(rcfg.nodes_of(cc[0]), rcfg.entry, rcfg.exit, normal_only=True) and \
         protected_by(ri, cc[0], 'ValueError') is None
@@ -242,114 +952,328 @@ def run(rep):
     k, m, ip = repo.resolve(route, 'InvalidPattern')
     ok = k == 'class' and repo.is_subclass(ip, 'ValueError')
     rep.check('R05.c', '%s::InvalidPattern' % ROUTE, ok, 'InvalidPattern is a ValueError' if ok else 'InvalidPattern is no longer a ValueError', route)
-    rep.floor('R05.c', 8)
+    rep.floor('R05.c', 10)
 
-    # ---- R05.d -----------------------------------------------------------
-    comp = [c for c in walk_body(cp.node) if isinstance(c, ast.Call) and norm(c.func) == 're.compile']
-    ok = len(comp) == 1 and isinstance(comp[0].args[0], ast.BinOp) and isinstance(comp[0].args[0].op, ast.Add) and \
-        isinstance(comp[0].args[0].right, ast.Constant) and comp[0].args[0].right.value == '$' and len(comp[0].args) == 1 and not comp[0].keywords
-    fpv = norm(comp[0].args[0].left) if ok else None
-    rep.check('R05.d', fkey(cp, "ends with '$'"), ok, "the compiled expression ends with '$'" if ok else
-              "re.compile is not given <expr> + '$' (trailing garbage after a match would be accepted)", route, comp[0] if comp else cp.node)
-    if fpv:
-        asg = [s for s in stmts_of(cp.node) if isinstance(s, (ast.Assign, ast.AugAssign)) and norm(s.targets[0] if isinstance(s, ast.Assign) else s.target) == fpv]
-        first = asg[0] if asg else None
-        ok = first is not None and isinstance(first, ast.Assign) and isinstance(first.value, ast.Constant) and first.value.value == '^' and \
-            all(isinstance(s, ast.AugAssign) and isinstance(s.op, ast.Add) for s in asg[1:])
-        rep.check('R05.d', fkey(cp, "starts with '^'"), ok, "the expression starts with '^' and is only appended to" if ok else
-                  "the expression does not start with '^' / is re-assigned", route, first or cp.node)
-        sepv = kw.get('sep')
-        joins = [s for s in asg[1:] if isinstance(s.value, ast.Call) and call_tail(s.value) == 'join' and norm(s.value.func.value) == sepv
-                 and isinstance(s.value.args[0], ast.Name)]
-        rep.check('R05.d', fkey(cp, 'segments joined by sep'), len(joins) == 1, 'processed segments are joined with the mode\'s separator' if len(joins) == 1 else
-                  'processed segments are not joined with sep', route, cp.node)
-        tails = [s for s in asg[1:] if isinstance(s.value, ast.Constant) and s.value.value == '/*']
-        ok = len(tails) == 1 and has_cond(conds(cp, tails[0]), lambda t: norm(t) == 'mode != S_STRICT', True) and \
-            len(asg) == 3
-        rep.check('R05.d', fkey(cp, "trailing '/*'"), ok, "outside strict mode trailing slashes are tolerated ('/*'), in strict mode nothing is added" if ok else
-                  "the trailing '/*' is not added exactly when mode != S_STRICT", route, tails[0] if tails else cp.node)
-    seps = [s for s in stmts_of(cp.node) if isinstance(s, ast.Assign) and norm(s.targets[0]) == kw.get('sep') and isinstance(s.value, ast.Constant)]
-    vals = dict((s.value.value, conds(cp, s)) for s in seps)
-    ok = set(vals) == {'/+', '/'} and has_cond(vals['/'], lambda t: norm(t) == 'mode == S_STRICT', True) and \
-        not any('mode' in norm(t) for t, p in vals['/+'])
-    rep.check('R05.d', fkey(cp, 'separators'), ok, "separator is '/+' (repeated slashes tolerated) and exactly '/' in strict mode" if ok else
-              'separator per mode changed: %s' % sorted(vals), route, seps[0] if seps else cp.node)
-    ok = kw.get('sep') is not None and bool(seps)
-    rep.check('R05.d', fkey(cp, 'segment separator'), ok, 'bindings use the same separator' if ok else 'binding segments use another separator', route, fc)
+
+# ---- R05.d ------------------------------------------------------------------------------------------
+
+def _rule_d_compiled(rep, R):
+    """The expression handed to re.compile, per slash mode: '^' + sep.join(segments) + tail + '$'."""
+    repo = rep.repo
+    route, cp = R.route, R.cp
+    try:
+        strict_value = route.const('S_STRICT')
+    except Exception as e:
+        raise AnalysisError('cannot fold S_STRICT: %s' % e)
+    paths = []   # (strict?, string value, plain compile?, environment at the segment loop)
+    for strict in (True, False):
+        rets = _SymExec(repo, cp, R.mode, strict_value, strict).returns()
+        if not rets:
+            raise AnalysisError('_compile_path_pattern: no returning path found%s' % (' in strict mode' if strict else ''))
+        for val, env in rets:
+            rx = val[1][0] if val[0] == 't' and len(val[1]) == 2 else None
+            if rx is None or rx[0] != 're':
+                raise AnalysisError('_compile_path_pattern: cannot follow the compiled regex to the return value (%s)' % _show(val))
+            sv = rx[1]
+            if sv[0] != 's':
+                raise AnalysisError('_compile_path_pattern: cannot follow the expression given to re.compile (%s)' % _show(sv))
+            unknown = [t[1] for t in sv[1] if t[0] == 'sym'] + [u[1] for t in sv[1] if t[0] == 'join' for u in t[1] if u[0] != 'lit']
+            if unknown:
+                raise AnalysisError('_compile_path_pattern: part of the compiled expression cannot be followed: %s in %s' % (unknown[0], _show(sv)))
+            loop_env = None
+            for lst, lenv in env.get('$loops', ()):
+                if lst is R.loop:
+                    loop_env = lenv
+            paths.append((strict, sv, rx[2], loop_env))
+    mode_txt = lambda s: 'strict mode' if s else 'non-strict modes'
+    first = lambda bad: '%s: %s' % (mode_txt(bad[0][0]), _show(bad[0][1]))
+    node = ([c for c in walk_body(cp.node) if isinstance(c, ast.Call) and norm(c.func) == 're.compile'] or [cp.node])[0]
+
+    bad = [p for p in paths if not (p[2] and p[1][1] and p[1][1][-1][0] == 'lit' and p[1][1][-1][1].endswith('$') and not p[1][1][-1][1].endswith('\\$'))]
+    rep.check('R05.d', fkey(cp, "ends with '$'"), not bad, "the compiled expression ends with '$'" if not bad else
+              "re.compile is not given <expr> + '$' (trailing garbage after a match would be accepted): %s" % first(bad), route, node)
+    bad = [p for p in paths if not (p[1][1] and p[1][1][0][0] == 'lit' and p[1][1][0][1].startswith('^'))]
+    rep.check('R05.d', fkey(cp, "starts with '^'"), not bad, "the expression starts with '^'" if not bad else
+              "the expression does not start with '^': %s" % first(bad), route, node)
+    joins = lambda p: [t for t in p[1][1] if t[0] == 'join']
+    bad = [p for p in paths if len(joins(p)) != 1]
+    rep.check('R05.d', fkey(cp, 'segments joined by sep'), not bad, 'processed segments are joined with the mode\'s separator' if not bad else
+              'processed segments are not joined (once) with sep: %s' % first(bad), route, node)
+
+    def shape(p):
+        """(prefix, suffix) literals around the single join, or None"""
+        toks = list(p[1][1])
+        if len(joins(p)) != 1:
+            return None
+        i = [k for k, t in enumerate(toks) if t[0] == 'join'][0]
+        pre, suf = toks[:i], toks[i + 1:]
+        if len(pre) > 1 or len(suf) > 1:
+            return None
+        return (pre[0][1] if pre else '', suf[0][1] if suf else '')
+    bad = [p for p in paths if shape(p) != ('^', '$' if p[0] else '/*$')]
+    rep.check('R05.d', fkey(cp, "trailing '/*'"), not bad, "outside strict mode trailing slashes are tolerated ('/*'), in strict mode nothing is added" if not bad else
+              "the trailing '/*' is not added exactly when mode != S_STRICT: %s" % first(bad), route, node)
+    sep_of = lambda p: joins(p)[0][1] if len(joins(p)) == 1 else None
+    bad = [p for p in paths if sep_of(p) != (('lit', '/' if p[0] else '/+'),)]
+    rep.check('R05.d', fkey(cp, 'separators'), not bad, "separator is '/+' (repeated slashes tolerated) and exactly '/' in strict mode" if not bad else
+              'separator per mode changed: %s' % first(bad), route, node)
+    # the separator inside every binding segment is the one the segments are joined with
+    sepk = R.kw.get('sep')
+    if sepk is None or R.loop is None:
+        rep.fail('R05.d', fkey(cp, 'segment separator'), 'binding segments are not built with a separator inside the segment loop', route, R.fc)
+    else:
+        bad = []
+        for p in paths:
+            if p[3] is None:
+                raise AnalysisError('_compile_path_pattern: the segment loop is not on every returning path')
+            ex = _SymExec(repo, cp, R.mode, strict_value, p[0])
+            v = ex.ev(sepk, p[3])
+            if not (v[0] == 's' and v[1] == sep_of(p)):
+                bad.append((p[0], v))
+        rep.check('R05.d', fkey(cp, 'segment separator'), not bad, 'bindings use the same separator' if not bad else
+                  'binding segments use another separator than the one the segments are joined with: %s' % first(bad), route, R.fc)
+
+
+def _rule_d_matching(rep):
+    route = rep.repo.mod(ROUTE)
     mp = route.func('BoundRoute.match_path')
     check_match_path_no_raise(rep, 'R05.d')
     from .c07 import check_bound_regex
     check_bound_regex(rep, 'R05.d')
-    m_st = [s for s in stmts_of(mp.node) if isinstance(s, ast.Assign) and isinstance(s.value, ast.Call) and norm(s.value.func) == 'self.regex.match']
-    from .common import implies_absent
-    ok = len(m_st) == 1 and any(isinstance(r.value, ast.Constant) and r.value.value is None and
-                                implies_absent(conds(mp, r), norm(m_st[0].targets[0])) for r in returns_of(mp))
+    m_st = [s for s in stmts_of(mp.node) if isinstance(s, ast.Assign) and isinstance(s.value, ast.Call) and norm(s.value.func) == 'self.regex.match'
+            and len(s.targets) == 1 and isinstance(s.targets[0], ast.Name)]
+    ok = len(m_st) == 1 and _stores(mp.node, m_st[0].targets[0].id) == 1 and \
+        any(isinstance(r.value, ast.Constant) and r.value.value is None and
+            implies_absent(conds(mp, r), norm(m_st[0].targets[0])) for r in returns_of(mp) if r.value is not None)
     rep.check('R05.d', fkey(mp, 'no match => None'), ok, 'a failed regex match returns None' if ok else 'match_path does not return None for a failed match', route, mp.node)
-    ok = m_st and norm(m_st[0].value.args[0]) == mp.params()[1]
+    ok = m_st and len(mp.params()) > 1 and len(m_st[0].value.args) == 1 and norm(m_st[0].value.args[0]) == mp.params()[1] and not _stores(mp.node, mp.params()[1])
     rep.check('R05.d', fkey(mp, 'matches the path'), bool(ok), 'the compiled regex is matched against the given path' if ok else 'regex.match is not applied to the path', route, mp.node)
-    rep.floor('R05.d', 9)
 
-    # ---- R05.e -----------------------------------------------------------
+
+# ---- R05.e ------------------------------------------------------------------------------------------
+
+def _optional_empty(fi, ret, v):
+    """The return is taken exactly under the facts "optional" and "value is empty" (in either order / nesting)."""
+    cs = conds(fi, ret)
+    if not (has_cond(cs, lambda t: norm(t) == 'optional', True) and implies_absent(cs, v)):
+        return False
+    # ... and under nothing else: every other condition on the path is a conjunction these two facts were split from
+    for t, pol in cs:
+        if isinstance(t, ast.BoolOp) and ((isinstance(t.op, ast.And) and pol is True) or (isinstance(t.op, ast.Or) and pol is False)):
+            continue
+        if (norm(t) == 'optional' and pol is True) or implies_absent([(t, pol)], v):
+            continue
+        return False
+    return True
+
+
+def _list_of_conversions(fi, outer, ret, v, conv):
+    """Is the returned value  [conv(x) for x in v.split('/')[1:]]  -- as a comprehension, list(map(conv, ...)) or an
+    explicit ``out = []; for x in ...: out.append(conv(x)); return out`` loop?"""
+    want_iter = "%s.split('/')[1:]" % v
+    val = ret.value
+    if isinstance(val, ast.Name):
+        L = val.id
+        d = _single_def(fi, L)
+        empty = d is not None and ((isinstance(d, ast.List) and not d.elts) or (isinstance(d, ast.Call) and norm(d) == 'list()'))
+        uses = [n for n in walk_body(fi.node) if isinstance(n, ast.Name) and n.id == L and isinstance(n.ctx, ast.Load)]
+        appends = [s for s in stmts_of(fi.node) if isinstance(s, ast.Expr) and isinstance(s.value, ast.Call) and norm(s.value.func) == '%s.append' % L
+                   and len(s.value.args) == 1 and not s.value.keywords]
+        if not empty or len(appends) != 1 or len(uses) != 2:
+            return False
+        loop = fi.mod.parents.get(appends[0])
+        body = fi.node.body
+        init = [st for st in body if isinstance(st, (ast.Assign, ast.AnnAssign)) and L in names_stored(st)]
+        if len(init) != 1 or loop not in body or body.index(init[0]) > body.index(loop):
+            return False        # the accumulator is created once, before the loop, at the top level of the converter
+        if not (isinstance(loop, ast.For) and loop in body and not loop.orelse and isinstance(loop.target, ast.Name) and
+                all(isinstance(s, (ast.Assign, ast.Expr)) for s in loop.body) and ret in body and body.index(loop) < body.index(ret)):
+            return False
+        if any(isinstance(s, ast.Expr) and s is not appends[0] for s in loop.body):
+            return False
+        x = loop.target.id
+        if _stores(fi.node, x) != 1:
+            return False
+        item = _inline(fi, appends[0].value.args[0], stable=(x,), outer=outer)
+        it = _inline(fi, loop.iter, outer=outer)
+        return norm(item) == '%s(%s)' % (conv, x) and norm(it) == want_iter
+    val = _inline(fi, val, outer=outer)
+    if isinstance(val, ast.ListComp):
+        g = val.generators
+        return len(g) == 1 and not g[0].ifs and not g[0].is_async and isinstance(g[0].target, ast.Name) and \
+            norm(g[0].iter) == want_iter and norm(val.elt) == '%s(%s)' % (conv, g[0].target.id)
+    return norm(val) == 'list(map(%s, %s))' % (conv, want_iter)
+
+
+def _rule_e_converters(rep):
+    route = rep.repo.mod(ROUTE)
     bcv = route.func('build_converter')
-    inner = dict((f.name, f) for q, f in route.functions.items() if q.startswith('build_converter.'))
+    bp = bcv.params()
+    if not bp or 'multi' not in bp or 'optional' not in bp:
+        raise AnalysisError('build_converter: expected (converter, optional, multi)')
+    conv = bp[0]
+    stable_outer = all(_stores(bcv.node, n) == 0 for n in (conv, 'optional', 'multi'))
+    inner = dict((f.name, f) for q, f in route.functions.items() if q.startswith('build_converter.') and q.count('.') == 1)
     rets = returns_of(bcv)
+    if len(rets) != 2 or not all(r.value is not None and norm(r.value) in inner for r in rets) or len(set(norm(r.value) for r in rets)) != 2:
+        raise AnalysisError('build_converter: expected two nested converter functions, one of which is returned (found: %s)' %
+                            ', '.join(short(r, 40) for r in rets))
     multi_ret = [r for r in rets if has_cond(conds(bcv, r), lambda t: norm(t) == 'multi', True)]
     single_ret = [r for r in rets if r not in multi_ret]
-    ok = len(multi_ret) == 1 and len(single_ret) == 1 and norm(multi_ret[0].value) in inner and norm(single_ret[0].value) in inner
+    ok = stable_outer and len(multi_ret) == 1 and len(single_ret) == 1 and norm(multi_ret[0].value) in inner and norm(single_ret[0].value) in inner and \
+        all(_stores(bcv.node, norm(r.value)) == 1 for r in rets)
     rep.check('R05.e', fkey(bcv, 'selection'), ok, 'multi selects the list converter, otherwise the single converter' if ok else
               'build_converter does not select between a multi and a single converter on "multi"', route, bcv.node)
-    if ok:
-        mf, sf = inner[norm(multi_ret[0].value)], inner[norm(single_ret[0].value)]
-        v = mf.params()[0]
-        empties = [r for r in returns_of(mf) if isinstance(r.value, ast.List) and not r.value.elts]
-        ok1 = len(empties) == 1 and has_cond(conds(mf, empties[0]), lambda t: norm(t) == 'not %s and optional' % v or norm(t) == 'optional and not %s' % v, True)
-        conv = [r for r in returns_of(mf) if r not in empties]
-        ok2 = len(conv) == 1 and isinstance(conv[0].value, ast.ListComp) and norm(conv[0].value.generators[0].iter) == "%s.split('/')[1:]" % v and \
-            norm(conv[0].value.elt) == 'converter(%s)' % norm(conv[0].value.generators[0].target)
-        rep.check('R05.e', fkey(mf, 'optional empty'), ok1, "an absent optional multi binding yields [] before any conversion" if ok1 else
-                  'the multi converter does not return [] for an empty optional value', route, mf.node)
-        rep.check('R05.e', fkey(mf, 'list of conversions'), ok2, "a multi binding yields [converter(v) for v in value.split('/')[1:]]" if ok2 else
-                  "the multi converter is not [converter(v) for v in value.split('/')[1:]]", route, mf.node)
-        v = sf.params()[0]
-        nones = [r for r in returns_of(sf) if isinstance(r.value, ast.Constant) and r.value.value is None]
-        ok1 = len(nones) == 1 and has_cond(conds(sf, nones[0]), lambda t: norm(t) in ('not %s and optional' % v, 'optional and not %s' % v), True)
-        conv = [r for r in returns_of(sf) if r not in nones]
-        ok2 = len(conv) == 1 and norm(conv[0].value) in ("converter(%s.replace('/', ''))" % v, "converter(%s.lstrip('/'))" % v, "converter(%s.strip('/'))" % v)
-        rep.check('R05.e', fkey(sf, 'optional empty'), ok1, 'an absent optional single binding yields None before any conversion' if ok1 else
-                  'the single converter does not return None for an empty optional value', route, sf.node)
-        rep.check('R05.e', fkey(sf, 'conversion'), ok2, 'a single binding is converted from its segment without the separator' if ok2 else
-                  'the single converter does not strip the separator before converting', route, sf.node)
-    # default type
-    dt = [s for s in stmts_of(cp.node) if isinstance(s, ast.Assign) and isinstance(s.value, ast.Constant) and isinstance(s.value.value, str)
-          and s.value.value in convs and has_cond(conds(cp, s), lambda t: norm(t) == norm(s.targets[0]), False)]
-    ok = len(dt) == 1 and convs[dt[0].value.value][1] == '_STR_PATTERN'
-    rep.check('R05.e', fkey(cp, 'default type'), ok, 'a binding without a type is a string binding' if ok else 'the default binding type is not a registered string type', route, cp.node)
+    if not ok:
+        return
+    mf, sf = inner[norm(multi_ret[0].value)], inner[norm(single_ret[0].value)]
+    for f in (mf, sf):
+        if len(f.params()) != 1:
+            raise AnalysisError('%s: expected a one-argument converter' % f.qualname)
+    local_ok = lambda f: all(_stores(f.node, n) == 0 for n in (conv, 'optional', f.params()[0])) and \
+        not any(isinstance(s, ast.Try) for s in stmts_of(f.node))
+    v = mf.params()[0]
+    empties = [r for r in returns_of(mf) if isinstance(r.value, ast.List) and not r.value.elts]
+    ok1 = local_ok(mf) and len(empties) == 1 and _optional_empty(mf, empties[0], v)
+    convr = [r for r in returns_of(mf) if r not in empties]
+    ok2 = local_ok(mf) and len(convr) == 1 and convr[0].value is not None and _list_of_conversions(mf, bcv, convr[0], v, conv)
+    rep.check('R05.e', fkey(mf, 'optional empty'), ok1, "an absent optional multi binding yields [] before any conversion" if ok1 else
+              'the multi converter does not return [] for an empty optional value', route, mf.node)
+    rep.check('R05.e', fkey(mf, 'list of conversions'), ok2, "a multi binding yields [converter(v) for v in value.split('/')[1:]]" if ok2 else
+              "the multi converter is not [converter(v) for v in value.split('/')[1:]]", route, mf.node)
+    v = sf.params()[0]
+    nones = [r for r in returns_of(sf) if r.value is None or (isinstance(r.value, ast.Constant) and r.value.value is None)]
+    ok1 = local_ok(sf) and len(nones) == 1 and _optional_empty(sf, nones[0], v)
+    convr = [r for r in returns_of(sf) if r not in nones]
+    ok2 = local_ok(sf) and len(convr) == 1 and norm(_inline(sf, convr[0].value, outer=bcv)) in (
+        "%s(%s.replace('/', ''))" % (conv, v), "%s(%s.lstrip('/'))" % (conv, v), "%s(%s.strip('/'))" % (conv, v))
+    rep.check('R05.e', fkey(sf, 'optional empty'), ok1, 'an absent optional single binding yields None before any conversion' if ok1 else
+              'the single converter does not return None for an empty optional value', route, sf.node)
+    rep.check('R05.e', fkey(sf, 'conversion'), ok2, 'a single binding is converted from its segment without the separator' if ok2 else
+              'the single converter does not strip the separator before converting', route, sf.node)
+
+
+def _group_of(R, e, depth=0):
+    """'name' / 'op' / 'type' ... when expression ``e`` reads that named group of ``BINDING.match(<loop variable>)``:
+    m.group('x'), m['x'], m.groupdict()['x'], d['x'] with d = m.groupdict()."""
+    cp = R.cp
+    loopvar = R.loop.target.id if isinstance(R.loop, ast.For) and isinstance(R.loop.target, ast.Name) else None
+
+    def is_match(x, d=0):
+        if isinstance(x, ast.Name) and d < 4:
+            v = _single_def(cp, x.id)
+            return v is not None and is_match(v, d + 1)
+        return isinstance(x, ast.Call) and norm(x.func) == 'BINDING.match' and len(x.args) == 1 and not x.keywords and \
+            (loopvar is None or norm(x.args[0]) == loopvar)
+
+    def is_groupdict(x, d=0):
+        if isinstance(x, ast.Name) and d < 4:
+            v = _single_def(cp, x.id)
+            return v is not None and is_groupdict(v, d + 1)
+        return isinstance(x, ast.Call) and isinstance(x.func, ast.Attribute) and x.func.attr == 'groupdict' and not x.args and not x.keywords and \
+            is_match(x.func.value)
+    if isinstance(e, ast.Subscript) and isinstance(e.slice, ast.Constant) and isinstance(e.slice.value, str):
+        if is_groupdict(e.value) or is_match(e.value):
+            return e.slice.value
+    if isinstance(e, ast.Call) and isinstance(e.func, ast.Attribute) and e.func.attr == 'group' and len(e.args) == 1 and not e.keywords and \
+            isinstance(e.args[0], ast.Constant) and isinstance(e.args[0].value, str) and is_match(e.func.value):
+        return e.args[0].value
+    if isinstance(e, ast.Call) and isinstance(e.func, ast.Attribute) and e.func.attr == 'get' and len(e.args) == 1 and not e.keywords and \
+            isinstance(e.args[0], ast.Constant) and isinstance(e.args[0].value, str) and is_groupdict(e.func.value):
+        return e.args[0].value
+    if isinstance(e, ast.Name) and depth < 4:
+        v = _single_def(cp, e.id)
+        if v is not None:
+            return _group_of(R, v, depth + 1)
+    return None
+
+
+def _alias_lookup(repo, mod, fi, e, var):
+    """The folded table D of ``D.get(var, var)`` (D a module-level constant), else None."""
+    if isinstance(e, ast.Call) and isinstance(e.func, ast.Attribute) and e.func.attr == 'get' and len(e.args) == 2 and not e.keywords and \
+            norm(e.args[0]) == var and norm(e.args[1]) == var and isinstance(e.func.value, ast.Name) and \
+            e.func.value.id not in _all_params(fi) and not _stores(fi.node, e.func.value.id):
+        d = repo.try_fold(e.func.value, mod, default=None)
+        return d if isinstance(d, dict) else None
+    return None
+
+
+def _var_sources(R, var):
+    """-> (sources, constants): non-constant values bound to the local (``x or 'd'`` counts as source x and
+    default 'd'), and the string constants bound to it [(stmt, text, kind)]."""
+    sources, consts = [], []
+    for st, val in _defs(R.cp, var):
+        if val is None:
+            sources.append((st, None))
+        elif isinstance(val, ast.Name) and val.id == var:
+            continue                       # x = x (the else-arm of a normalised conditional expression)
+        elif _alias_lookup(R.route.repo, R.route, R.cp, val, var) is not None:
+            consts.append((st, None, 'alias'))
+        elif isinstance(val, ast.Constant) and isinstance(val.value, str):
+            consts.append((st, val.value, 'assign'))
+        elif isinstance(val, ast.BoolOp) and isinstance(val.op, ast.Or) and len(val.values) == 2 and \
+                isinstance(val.values[1], ast.Constant) and isinstance(val.values[1].value, str):
+            sources.append((st, val.values[0]))
+            consts.append((st, val.values[1].value, 'or'))
+        else:
+            sources.append((st, val))
+    return sources, consts
+
+
+def _rule_e_bindings(rep, R, convs, pats):
+    repo = rep.repo
+    route, cp = R.route, R.cp
+    # default type: the type variable falls back to a registered string type when the binding names none
+    T = R.typevar
+    if T is None:
+        raise AnalysisError('_compile_path_pattern: the variable holding the type name was not found (key of the TYPE_*_MAP lookups)')
+    srcs, consts = _var_sources(R, T)
+    dflt = [c for c in consts if c[2] == 'or' or (c[2] == 'assign' and implies_absent(conds(cp, c[0]), T))]
+    if convs is not None:
+        ok = len(dflt) == 1 and len(consts) == 1 and dflt[0][1] in convs and convs[dflt[0][1]][1] == pats['_STR_PATTERN']
+        rep.check('R05.e', fkey(cp, 'default type'), ok, 'a binding without a type is a string binding' if ok else 'the default binding type is not a registered string type', route,
+                  dflt[0][0] if dflt else cp.node)
     # BINDING grammar
     try:
         b = None
         for v in route.assigns.get('BINDING', []):
-            if isinstance(v, ast.Call) and norm(v.func) == 're.compile':
+            if isinstance(v, ast.Call) and norm(v.func) == 're.compile' and len(v.args) == 1 and not v.keywords:
                 b = repo.fold(v.args[0], route)
         gd = regexq.parse(b).state.groupdict
     except Exception as e:
         raise AnalysisError('BINDING regex: %s' % e)
-    ok = {'name', 'op', 'type'} <= set(gd) and re.fullmatch(b, '<a>') and re.fullmatch(b, '<a?int>') is not None
     rep.check('R05.e', '%s::BINDING groups' % ROUTE, bool({'name', 'op', 'type'} <= set(gd)), 'BINDING exposes groups name / op / type' if {'name', 'op', 'type'} <= set(gd) else
               'BINDING lacks one of the groups name / op / type', route)
-    used = [s for s in stmts_of(cp.node) if isinstance(s, ast.Assign) and isinstance(s.targets[0], ast.Tuple) and "parsed['name']" in norm(s.value)]
-    ok = len(used) == 1 and [norm(t) for t in used[0].targets[0].elts] == ['name', 'type_name', 'op'] and \
-        [norm(v) for v in used[0].value.elts] == ["parsed['name']", "parsed['type']", "parsed['op']"]
+    # each role variable is fed from the group of the same name
+    roles = {'name': R.namevar, 'type': T, 'op': R.opvar}
+    got = {}
+    for role, var in sorted(roles.items()):
+        if var is None:
+            raise AnalysisError('_compile_path_pattern: the variable holding the binding %s was not found' % role)
+        s, c = _var_sources(R, var)
+        if len(s) != 1 or s[0][1] is None:
+            raise AnalysisError('_compile_path_pattern: cannot tell where %s (binding %s) comes from' % (var, role))
+        g = _group_of(R, s[0][1])
+        if g is None:
+            raise AnalysisError('_compile_path_pattern: %s = %s is not recognised as a group of BINDING.match(...)' % (var, short(s[0][1], 50)))
+        got[role] = g
+    ok = all(got[r] == r for r in roles)
+    ok = ok and all(norm(key) == R.namevar for st, key in _item_stores(cp, R.vcm))
     rep.check('R05.e', fkey(cp, 'groups unpacked'), ok, 'name / type / op are taken from the groups of the same name' if ok else
-              'the parsed binding groups are unpacked into the wrong variables', route, used[0] if used else cp.node)
-    rep.floor('R05.e', 8)
+              'the parsed binding groups are unpacked into the wrong variables: %s' % ', '.join('%s <- group %r' % (roles[r], got[r]) for r in sorted(roles)), route, cp.node)
 
-    # ---- R05.f -----------------------------------------------------------
-    n = 0
+
+# ---- R05.f ------------------------------------------------------------------------------------------
+
+def _rule_f(rep, pats, seg):
+    route = rep.repo.mod(ROUTE)
     for op_ in sorted(DOC_QUANT):
         for pname, p in sorted(pats.items()):
             for sep in ('/+', '/'):
-                n += 1
-                got = seg.format(name='x', sep=sep, pattern=p, arity=op_)
+                try:
+                    got = seg.format(name='x', sep=sep, pattern=p, arity=op_)
+                except (KeyError, IndexError, ValueError) as e:
+                    raise AnalysisError('_SEG_TMPL cannot be instantiated with name/sep/pattern/arity: %s' % e)
                 spec = '(?:(?:%s)(?:%s))%s' % (sep, p, DOC_QUANT[op_])
                 a, w1 = regexq.included(got, spec)
                 b_, w2 = regexq.included(spec, got)
@@ -359,3 +1283,38 @@ def run(rep):
                           'the segment generated for operator %r / %s / sep %r differs from (sep value)%s: witness %r' %
                           (op_, pname, sep, DOC_QUANT[op_], w1 if not a else w2), route)
     rep.floor('R05.f', 24)
+
+
+def run(rep):
+    rep.decide('R05.a type tables and pattern constants; R05.b operator tables vs quantifiers; R05.c five rejections; '
+               'R05.d anchoring / separators / no-raise matching; R05.e converter shapes; R05.f segment structure (automata)')
+    rep.decline('pattern x path matching semantics as a whole (language of a regex assembled at run time); greedy '
+                'backtracking between adjacent bindings; conversion values')
+    rep.assume('re._parser gives the syntax tree the re module compiles')
+    rep.rule('R05.a', 'table agreement + regex-AST queries + automata inclusion on the type pattern constants')
+    rep.rule('R05.b', 'operator tables agree with the quantifier each operator becomes')
+    rep.rule('R05.c', 'guarded raise InvalidPattern for each documented defect; Route.__init__ compiles first')
+    rep.rule('R05.d', "'^'...'$', separators per mode, handlers in match_path")
+    rep.rule('R05.e', 'build_converter branches')
+    rep.rule('R05.f', 'language equality of the instantiated segment template with an independent specification')
+    rep.repo.mod(ROUTE)          # anchor module: its absence is an analysis error of the whole property
+
+    tt = _guarded(rep, _type_tables, rep)
+    convs, pats = tt if tt is not None else (None, None)
+    tabs = _guarded(rep, _operator_tables, rep)
+    R = _guarded(rep, _roles, rep)
+    if R is not None and tabs is not None:
+        _guarded(rep, _rule_b, rep, R, tabs)
+    if R is not None:
+        _guarded(rep, _rule_c, rep, R)
+        _guarded(rep, _rule_d_compiled, rep, R)
+    _guarded(rep, _rule_d_matching, rep)
+    if not rep.gaps:
+        rep.floor('R05.d', 9)
+    _guarded(rep, _rule_e_converters, rep)
+    if R is not None and pats is not None:
+        _guarded(rep, _rule_e_bindings, rep, R, convs, pats)
+    if not rep.gaps:
+        rep.floor('R05.e', 8)
+    if pats is not None and tabs is not None:
+        _guarded(rep, _rule_f, rep, pats, tabs[2])
